@@ -1,8 +1,8 @@
 #!/verif/.venv/bin/python
 # Replay of a solver counterexample against the unmodified code (no shims).
-# property=C16 kernel=values label=k2:change_duration_is_direct_construction
+# property=C16 kernel=phase_fp label=k4:fp_phase_below_2pi
 import sys
 sys.path[:0] = ['/repo' + "/pulser-core", '/repo' + "/pulser-simulation", "/verif"]
 from symx.replay import replay
-sys.exit(replay(check='checks.c16', kernel='values', shape={'cls': 'interp', 'dur': 12, 'values': [0.0, 5.0, 1.0], 'kw': {'times': [0.1, 0.45, 0.9], 'interpolator': 'interp1d', 'kind': 'linear', 'fill_value': 'extrapolate'}},
-                assignment={}, label='k2:change_duration_is_direct_construction'))
+sys.exit(replay(check='checks.c16', kernel='phase_fp', shape={},
+                assignment={'x_bits': 9363055093560156160}, label='k4:fp_phase_below_2pi'))
